@@ -1,9 +1,12 @@
 SPECIFICATION Spec
 CONSTANTS
   Roots = {1, 2, 3}
-  Slots = {0, 1, 3, 5}
+  Slots = {0, 2, 3}
   Nows = {0, 3, 5, 7}
   SlotsPerEpoch = 2
+  NoRoot = 0
+  HasPayload = {1}
+  Deviation = "none"
   Retention = 1
-INVARIANTS TypeOK MapSound LookupRight ErrorNotSlot
+INVARIANTS ExecHeadSound TypeOK MapSound LookupRight ErrorNotSlot
 PROPERTY CleanOnlyOld
